@@ -25,7 +25,7 @@ def run(ctx):
             ctx.tlc("sem", "Interp", cfg, cases_path=cases, timeout_s=600, workers=workers)
     else:
         ctx.tlc("sem", "Interp", "Interp_quick2.cfg", cases_path=cases, timeout_s=600, workers=workers)
-        ctx.tlc("sem", "Interp", "Interp_thorough.cfg", cases_path=cases, timeout_s=900, workers=workers, coverage=True)
+        ctx.tlc("sem", "Interp", "Interp_thorough.cfg", cases_path=cases, timeout_s=900, workers=workers)
         r = ctx.tlc("sem", "Interp", "Interp_sim.cfg", cases_path=cases, timeout_s=600, workers=workers,
                     simulate="num=1000", depth=60, seed=ctx.seed)
         ctx.extra["simulated_literals"] = r.cases
